@@ -7,12 +7,21 @@
 
   Spec  : Spec/ConstraintCheck.lean      (`satisfies`, X.680 §41, §51.4, §51.5, §51.7)
   Impl  : Impl/ConstraintCheck.lean      (generated checker code + skeleton walkers, defects included)
-  Guard : Impl/ConstraintCheckDom.lean   (`dom`, the decidable region where the unchanged tree is right)
+  Guard : Impl/ConstraintCheckDom.lean   (`dom`, the decidable region where the tree is right; it
+                                          restricts leaf types only, every SEQUENCE / SET / CHOICE /
+                                          SEQUENCE OF shape over admitted leaves is inside)
   Data  : Generated/AlphabetTables.lean (re-extracted from the working tree on every check run)
   Lemmas: Proofs/ConstraintCheck.lean
 
-  The unchanged tree violates the property outside `dom`; each excluded region has a counter-example
-  theorem below (F25, F26, F48, F81–F86).
+  The tree violates the property outside `dom`; each excluded region has a counter-example
+  theorem below (F81, F83–F86).  F82 (the SIZE constraint of a named SEQUENCE OF / SET OF was never
+  tested) is repaired (`named_list_size_checked`).  F26 (`INTEGER (0..4294967295)`: range test compiled away on LP64) is
+  repaired (`ulong_full_range_checked`).  F48 (a generated checker with nothing applicable called itself) is
+  repaired: the model has no non-returning verdict any more (`check_terminates`,
+  `vacuous_constraint_returns`).  F25 (SEQUENCE_constraint / SET_constraint returned before the
+  later members were checked) is repaired: `walkSeq` / `walkSet` mirror the repaired loops, the
+  former witnesses are now inside `dom` and rejected (`walker_later_member_rejected`,
+  `set_walker_later_member_rejected`).
 -/
 import Asn1cModel.Proofs.ConstraintCheck
 namespace Asn1c.Props.C08
@@ -124,22 +133,24 @@ theorem range_code_mixed_cex :
 
 /-- **check_iff_satisfies_partial.**  On the guard domain, `asn_check_constraints` returns 0
     exactly for the values that satisfy every value / SIZE / FROM constraint of the ASN.1 source
-    and the built-in alphabets, at every nesting depth. -/
+    and the built-in alphabets, at every nesting depth.  `dom` admits every SEQUENCE / SET shape
+    (any number of components, with or without constraints of their own, in any order): the
+    remaining guards concern leaf types only (F81, F83–F86). -/
 theorem check_iff_satisfies_partial (name : String) (t : Ty) (v : Val) (h : dom name t v = true) :
     check name t v = .ok ↔ satisfies t v = true :=
-  descr_iff t name false v h
+  descr_iff t name v h
 
-/-- **Termination (partial).**  On the guard domain no generated checker falls back to itself:
-    the call returns 0 or -1.  (`Impl.check` itself is total — structural recursion on the type —
-    and reports the one non-terminating pattern of the C code as `selfloop`, see `self_recursion_cex`.) -/
-theorem check_terminates_partial (name : String) (t : Ty) (v : Val) (h : dom name t v = true) :
+/-- **Termination.**  `Impl.check` is a total function (structural recursion on the type) whose
+    verdict is 0 or -1 for *every* type and value: since the repair of F48 no generated checker
+    refers to itself (a type-level function with nothing applicable calls the checker of the
+    underlying type by name), so the model has no non-returning pattern left and the former
+    `selfloop` verdict is gone.  The K leg ties every C call on the generated cases to this function;
+    the former F48 witnesses are `vacuous_constraint_returns` below. -/
+theorem check_terminates (name : String) (t : Ty) (v : Val) :
     check name t v = .ok ∨ ∃ n w, check name t v = .fail n w := by
-  have := descr_noloop t name false v h
-  unfold check
-  cases hc : descrChk name false t v with
+  cases hc : check name t v with
   | ok => exact Or.inl rfl
   | fail n w => exact Or.inr ⟨n, w, rfl⟩
-  | selfloop => exact absurd hc this
 
 /-! Non-vacuity: a nested type with SIZE, FROM, value ranges, OPTIONAL, CHOICE, SEQUENCE OF and a
     reference lies in the domain; valid and violating values are decided correctly. -/
@@ -165,38 +176,89 @@ example : dom "T" exTy exBad = true := by decide +kernel
 example : check "T" exTy exBad = .fail "IA5String" .constraintFailed := by decide +kernel
 example : satisfies exTy exBad = false := by decide +kernel
 
-/-! ## 4. Counter-examples for the excluded regions (the unchanged tree, mirrored by Impl) -/
+/-! ## 3b. Repaired defects (F25, F48, F26, F82): the former witnesses -/
 
-/-- **F25 (SEQUENCE).**  `SEQUENCE { a BOOLEAN, b INTEGER (0..7) }`: `a` has no member-level checker,
-    the walker returns its verdict, `b = 9` is accepted. -/
-theorem walker_early_return_cex :
+/-- **F25 repaired (SEQUENCE), the former witness.**  `SEQUENCE { a BOOLEAN, b INTEGER (0..7) }`:
+    `a` has no member-level checker; the walker goes on after its verdict 0 and `b = 9` is rejected.
+    The case lies inside the proved domain. -/
+theorem walker_later_member_rejected :
     let t : Ty := .seq (.cons "a" false .bool (.cons "b" false (.int (some [⟨some 0, some 7⟩])) .nil))
     let v : Val := .struct [("a", .bool true), ("b", .int 9)]
-    check "A" t v = .ok ∧ satisfies t v = false ∧ dom "A" t v = false := by decide +kernel
-
-/-- **F25 (SET).**  `SET { a INTEGER (0..7), b INTEGER (0..7) }`: SET_constraint returns after the
-    first present member whatever it says. -/
-theorem set_walker_cex :
-    let t : Ty := .set (.cons "a" false (.int (some [⟨some 0, some 7⟩])) (.cons "b" false (.int (some [⟨some 0, some 7⟩])) .nil))
-    let v : Val := .struct [("a", .int 1), ("b", .int 9)]
-    check "J" t v = .ok ∧ satisfies t v = false ∧ dom "J" t v = false := by decide +kernel
-
-/-- **F26.**  `INTEGER (0..4294967295)` in a 64-bit `unsigned long`: the test is compiled away, 2^32 passes. -/
-theorem ulong_optimization_cex :
-    let t : Ty := .int (some [⟨some 0, some 4294967295⟩])
-    check "B" t (.int 4294967296) = .ok ∧ satisfies t (.int 4294967296) = false ∧
-    reprOK (fitsLong [⟨some 0, some 4294967295⟩]) 4294967296 = true ∧ dom "B" t (.int 4294967296) = false := by
+    check "A" t v = .fail "INTEGER" .constraintFailed ∧ satisfies t v = false ∧ dom "A" t v = true := by
   decide +kernel
 
-/-- **F48.**  `A ::= INTEGER (0..MAX)`: nothing applicable is emitted and the generated function
-    falls back to `td->encoding_constraints.general_constraints`, i.e. to itself: no return. -/
-theorem self_recursion_cex :
-    check "A" (.int (some [⟨some 0, none⟩])) (.int 5) = .selfloop ∧
-    check "C" (.int (some [⟨none, none⟩])) (.int 5) = .selfloop ∧
-    check "O" (.str .octet (some [⟨some 0, none⟩]) none) (.octets [1]) = .selfloop ∧
-    -- also through an inline component that gets a descriptor of its own (unsigned long)
-    check "S" (.seq (.cons "u" false (.int (some [⟨some 0, none⟩])) .nil)) (.struct [("u", .int 1)]) = .selfloop ∧
-    dom "A" (.int (some [⟨some 0, none⟩])) (.int 5) = false := by decide +kernel
+/-- **F25 repaired (SET), the former witness.**  `SET { a INTEGER (0..7), b INTEGER (0..7) }`:
+    SET_constraint goes on after the first present member, `b = 9` is rejected. -/
+theorem set_walker_later_member_rejected :
+    let t : Ty := .set (.cons "a" false (.int (some [⟨some 0, some 7⟩])) (.cons "b" false (.int (some [⟨some 0, some 7⟩])) .nil))
+    let v : Val := .struct [("a", .int 1), ("b", .int 9)]
+    check "J" t v = .fail "INTEGER" .constraintFailed ∧ satisfies t v = false ∧ dom "J" t v = true := by
+  decide +kernel
+
+/-- components without constraints of their own (BOOLEAN, a reference, an unconstrained string, a nested
+    SET with three components) in front of the violated one, at two levels: inside `dom`, rejected -/
+example :
+    let inner : Ty := .set (.cons "p" false .bool (.cons "q" true .null (.cons "r" false (.int (some [⟨some 1, some 2⟩])) .nil)))
+    let t : Ty := .seq (.cons "a" false .bool (.cons "n" false (.named "I1" (.int (some [⟨some 0, some 7⟩])))
+                  (.cons "s" false (.str .printable none none) (.cons "i" false inner (.cons "z" false .bool .nil)))))
+    let v : Val := .struct [("a", .bool false), ("n", .int 7), ("s", .octets [65]),
+                            ("i", .struct [("p", .bool true), ("r", .int 3)]), ("z", .bool true)]
+    dom "T" t v = true ∧ satisfies t v = false ∧ check "T" t v = .fail "INTEGER" .constraintFailed := by
+  decide +kernel
+
+/-- **F48 repaired, the former witnesses.**  `A ::= INTEGER (0..MAX)`, `C ::= INTEGER (MIN..MAX)`,
+    `O ::= OCTET STRING (SIZE(0..MAX))`, and an inline component `u INTEGER (0..MAX)` (which gets a
+    descriptor of its own): nothing applicable is emitted, the generated function calls the checker
+    of the underlying type (it used to call itself: unbounded recursion) and returns 0; the values
+    satisfy the constraints and the cases lie inside the proved domain. -/
+theorem vacuous_constraint_returns :
+    check "A" (.int (some [⟨some 0, none⟩])) (.int 5) = .ok ∧
+    check "C" (.int (some [⟨none, none⟩])) (.int 5) = .ok ∧
+    check "O" (.str .octet (some [⟨some 0, none⟩]) none) (.octets [1]) = .ok ∧
+    check "S" (.seq (.cons "u" false (.int (some [⟨some 0, none⟩])) .nil)) (.struct [("u", .int 1)]) = .ok ∧
+    dom "A" (.int (some [⟨some 0, none⟩])) (.int 5) = true ∧
+    dom "C" (.int (some [⟨none, none⟩])) (.int 5) = true ∧
+    dom "O" (.str .octet (some [⟨some 0, none⟩]) none) (.octets [1]) = true ∧
+    dom "S" (.seq (.cons "u" false (.int (some [⟨some 0, none⟩])) .nil)) (.struct [("u", .int 1)]) = true := by
+  decide +kernel
+
+/-- the fall back is the skeleton checker of the underlying type, not "accept": a named
+    `BIT STRING (SIZE(0..MAX))` still rejects an ill-formed unused-bit count, reporting the type's name;
+    an alias of a list type with a vacuous SIZE still walks the elements -/
+example :
+    check "BS" (.str .bit (some [⟨some 0, none⟩]) none) (.bits [] 3) = .fail "BS" .padding ∧
+    check "LA" (.named "L" (.listOf true (some [⟨some 0, none⟩]) (.int (some [⟨some 0, some 7⟩])))) (.list [.int 9])
+      = .fail "INTEGER" .constraintFailed := by decide +kernel
+
+/-- **F26 repaired, the former witness.**  `INTEGER (0..4294967295)` in a 64-bit `unsigned long`: the
+    range test is emitted (`value <= 4294967295`; it used to be compiled away on the assumption of a
+    32-bit `unsigned long`), 2^32 is rejected and both bounds are accepted; inside `dom`. -/
+theorem ulong_full_range_checked :
+    let t : Ty := .int (some [⟨some 0, some 4294967295⟩])
+    check "B" t (.int 4294967296) = .fail "B" .constraintFailed ∧ satisfies t (.int 4294967296) = false ∧
+    dom "B" t (.int 4294967296) = true ∧
+    check "B" t (.int 4294967295) = .ok ∧ check "B" t (.int 0) = .ok ∧
+    -- as an inline component (descriptor of its own, member-level checker)
+    check "S" (.seq (.cons "b" false t .nil)) (.struct [("b", .int 4294967296)]) = .fail "b" .constraintFailed := by
+  decide +kernel
+
+/-- **F82 repaired, the former witness.**  `O ::= SEQUENCE (SIZE(1..2)) OF INTEGER (0..7)`: the named
+    type's descriptor carries a generated `O_constraint` that tests SIZE and then walks the elements
+    (it used to carry the plain walker): the empty list and a list of three are rejected, naming `O`;
+    sizes 1 and 2 are accepted and their elements still checked; a plain reference `m O` inside a
+    SEQUENCE gets the same verdicts; the alias `O2 ::= O` behaves as before.  All inside `dom`. -/
+theorem named_list_size_checked :
+    let o : Ty := .listOf false (some [⟨some 1, some 2⟩]) (.int (some [⟨some 0, some 7⟩]))
+    check "O" o (.list []) = .fail "O" .constraintFailed ∧ satisfies o (.list []) = false ∧
+    dom "O" o (.list []) = true ∧
+    check "O" o (.list [.int 1, .int 2, .int 3]) = .fail "O" .constraintFailed ∧
+    check "O" o (.list [.int 1, .int 2]) = .ok ∧
+    check "O" o (.list [.int 1, .int 9]) = .fail "INTEGER" .constraintFailed ∧
+    check "W" (.seq (.cons "n" false .bool (.cons "m" false (.named "O" o) .nil)))
+        (.struct [("n", .bool true), ("m", .list [])]) = .fail "O" .constraintFailed ∧
+    check "O2" (.named "O" o) (.list []) = .fail "O2" .constraintFailed := by decide +kernel
+
+/-! ## 4. Counter-examples for the excluded regions (the tree as it is, mirrored by Impl) -/
 
 /-- **F81.**  `INTEGER (0..18446744073709551615)` lives in INTEGER_t and is read through
     asn_INTEGER2long: 2^63 satisfies the constraint and is rejected ("value too large"). -/
@@ -204,13 +266,6 @@ theorem wide_integer_cex :
     let t : Ty := .int (some [⟨some 0, some 18446744073709551615⟩])
     check "Y" t (.int 9223372036854775808) = .fail "Y" .valueTooLarge ∧
     satisfies t (.int 9223372036854775808) = true := by decide +kernel
-
-/-- **F82.**  `O ::= SEQUENCE (SIZE(1..2)) OF INTEGER (0..7)`: the named type's descriptor carries the
-    plain walker, SIZE is never tested (it is for the alias `O2 ::= O`). -/
-theorem named_list_size_cex :
-    let o : Ty := .listOf false (some [⟨some 1, some 2⟩]) (.int (some [⟨some 0, some 7⟩]))
-    check "O" o (.list []) = .ok ∧ satisfies o (.list []) = false ∧
-    check "O2" (.named "O" o) (.list []) = .fail "O2" .constraintFailed := by decide +kernel
 
 /-- **F83.**  `UTF8String (FROM("a".."z"))`: a single-range FROM on UTF8String produces no test. -/
 theorem utf8_from_cex :
@@ -238,10 +293,10 @@ theorem bmp_nonchar_cex :
     satisfies (.str .bmp (some [⟨some 1, some 1⟩]) none) (.octets [0xFF, 0xFF]) = true ∧
     check "B0" (.str .bmp none none) (.octets [0xFF, 0xFF]) = .ok := by decide +kernel
 
-/-! ## 5. The walker reports the first failing component in member order -/
+/-! ## 5. The walkers check every component and report the first failing one in member order -/
 
 /-- verdicts of the components in member order (absent OPTIONAL ones contribute nothing, an absent
-    mandatory one is a failure of the SEQUENCE itself) -/
+    mandatory one is a failure of the SEQUENCE / SET itself) -/
 def memberVerdicts (nm : String) : Members → List (String × Val) → List Verdict
   | .nil, _ => []
   | .cons id opt t rest, fs =>
@@ -249,36 +304,49 @@ def memberVerdicts (nm : String) : Members → List (String × Val) → List Ver
        | none => if opt then [] else [.fail nm .absent]
        | some v => [memberChk id t v]) ++ memberVerdicts nm rest fs
 
-/-- **walker_finds_first.**  When every component but the last carries a member-level checker
-    (no F25 early return), SEQUENCE_constraint returns the first non-zero verdict in member order —
-    the message therefore names the first failing component's type — and 0 if there is none. -/
-theorem walker_finds_first : ∀ (nm : String) (ms : Members) (fs : List (String × Val)), seqShape ms = true →
+/-- **walker_finds_first.**  For every SEQUENCE type and every value, SEQUENCE_constraint returns
+    the first non-zero verdict in member order — the message therefore names the first failing
+    component's type — and 0 if there is none: no component is skipped. -/
+theorem walker_finds_first : ∀ (nm : String) (ms : Members) (fs : List (String × Val)),
     walkSeq nm ms fs = ((memberVerdicts nm ms fs).find? (· ≠ .ok)).getD .ok
-  | nm, .nil, fs, _ => by simp [walkSeq, memberVerdicts]
-  | nm, .cons id opt t rest, fs, hs => by
-    have hs' : seqShape rest = true := by
-      cases rest with
-      | nil => rfl
-      | cons _ _ _ _ => simp only [seqShape, Bool.and_eq_true] at hs; exact hs.2
-    have ih := walker_finds_first nm rest fs hs'
+  | nm, .nil, fs => by simp [walkSeq, memberVerdicts]
+  | nm, .cons id opt t rest, fs => by
+    have ih := walker_finds_first nm rest fs
     simp only [walkSeq, memberVerdicts]
     cases hl : lookupField id fs with
     | none => cases opt <;> simp [ih]
     | some v =>
-      by_cases ho : hasOwn t = true
-      · simp only [ho, if_true, memberChk]
-        cases hv : memberSel id t v (occChk id t v) <;> simp [ih]
-      · have ho' : hasOwn t = false := by
-          cases h : hasOwn t with
-          | true => exact absurd h ho
-          | false => rfl
-        have hrest : rest = .nil := by
-          cases rest with
-          | nil => rfl
-          | cons _ _ _ _ => simp [seqShape, ho'] at hs
-        subst hrest
-        simp only [ho', Bool.false_eq_true, if_false, memberChk, memberSel_noOwn id t v _ ho', memberVerdicts]
-        cases hv : occChk id t v <;> simp
+      simp only [memberChk]
+      cases hv : memberSel id t v (occChk id t v) <;> simp [ih]
+
+/-- **set_walker_finds_first.**  The same for SET_constraint. -/
+theorem set_walker_finds_first : ∀ (nm : String) (ms : Members) (fs : List (String × Val)),
+    walkSet nm ms fs = ((memberVerdicts nm ms fs).find? (· ≠ .ok)).getD .ok
+  | nm, .nil, fs => by simp [walkSet, memberVerdicts]
+  | nm, .cons id opt t rest, fs => by
+    have ih := set_walker_finds_first nm rest fs
+    simp only [walkSet, memberVerdicts]
+    cases hl : lookupField id fs with
+    | none => cases opt <;> simp [ih]
+    | some v =>
+      simp only [memberChk]
+      cases hv : memberSel id t v (occChk id t v) <;> simp [ih]
+
+/-- **walker_checks_every_member.**  SEQUENCE_constraint / SET_constraint return 0 exactly when no
+    mandatory component is absent and the checker of *every* present component returns 0. -/
+theorem walker_checks_every_member (nm : String) (ms : Members) (fs : List (String × Val)) :
+    (walkSeq nm ms fs = .ok ↔ ∀ r ∈ memberVerdicts nm ms fs, r = .ok) ∧
+    (walkSet nm ms fs = .ok ↔ ∀ r ∈ memberVerdicts nm ms fs, r = .ok) := by
+  have key : ∀ l : List Verdict, ((l.find? (· ≠ .ok)).getD .ok = .ok ↔ ∀ r ∈ l, r = .ok) := by
+    intro l
+    induction l with
+    | nil => simp
+    | cons a l ih =>
+      cases a with
+      | ok => simpa [List.find?] using ih
+      | fail n w => simp [List.find?]
+  rw [walker_finds_first, set_walker_finds_first]
+  exact ⟨key _, key _⟩
 
 /-- two failing components: the one that comes first in the type is reported -/
 example :
